@@ -15,7 +15,7 @@ INCS    := -I$(REPO)/src -I$(REPO)/contrib/src -I$(HOOKS) -I$(REPO)/contrib/src/
 CXXFLAGS := -std=gnu++11 -O1 -g -Wno-deprecated-declarations $(DEFS) $(INCS)
 LIBS    := -L$(HOOKS)/lib -Wl,-rpath,$(HOOKS)/lib -luscxml_transform -luscxml -lxerces-c -levent -levent_pthreads -lpthread
 
-HARNESSES := $(BIN)/interp_trace $(BIN)/fn_replay $(BIN)/xform $(BIN)/mt_queue $(BIN)/mt_teardown $(BIN)/mt_delay $(BIN)/mt_invoke
+HARNESSES := $(BIN)/interp_trace $(BIN)/fn_replay $(BIN)/xform $(BIN)/mt_queue $(BIN)/mt_teardown $(BIN)/mt_delay $(BIN)/mt_invoke $(BIN)/json_replay $(BIN)/json_replay_asan
 
 .PHONY: setup build libs harness clean
 setup: build
@@ -38,6 +38,13 @@ harness: $(HARNESSES)
 $(BIN)/%: harness/%.cpp $(HOOKS)/lib/libuscxml.so
 	@mkdir -p $(BIN)
 	$(CXX) $(CXXFLAGS) -o $@ $< $(LIBS)
+
+# the JSON parser under ASan+UBSan: Data.cpp and jsmn.c are compiled into the harness (instrumented),
+# everything else comes from the shared library
+$(BIN)/json_replay_asan: harness/json_replay.cpp $(REPO)/src/uscxml/messages/Data.cpp $(REPO)/contrib/src/jsmn/jsmn.c $(HOOKS)/lib/libuscxml.so
+	@mkdir -p $(BIN)
+	cc -c -O1 -g -fsanitize=address,undefined -fno-sanitize-recover=all -I$(REPO)/contrib/src/jsmn -o $(B)/jsmn_asan.o $(REPO)/contrib/src/jsmn/jsmn.c
+	$(CXX) $(CXXFLAGS) -fsanitize=address,undefined -fno-sanitize-recover=all -o $@ harness/json_replay.cpp $(REPO)/src/uscxml/messages/Data.cpp $(B)/jsmn_asan.o $(LIBS)
 
 clean:
 	rm -rf $(B) /verif/out
